@@ -156,6 +156,38 @@ static void do_eval(const unsigned char *s, int n)
 	free(str);
 }
 
+/* a burst of characters from the input interrupt with NO scheduler pass in between, while `pending` wake-ups for other fibres
+ * already sit in the scheduler's interrupt-safe queue (eight fill it: the console's own wake-ups are then refused); the
+ * scheduler runs; one more key is typed.  The ring holds 15 characters: what fitted is processed as typed, the rest is lost. */
+static fibre_t idlers[10];
+static int idler_body(fibre_t *f) { (void)f; return PT_EXITED; }
+static void do_flood(const unsigned char *s, int n, int pending, int key)
+{
+	cap_clear();
+	for (int i = 0; i < pending && i < 10; i++) { fibre_init(&idlers[i], idler_body); fibre_run_atomic(&idlers[i]); }
+	for (int i = 0; i < n; i++) console_putchar(con, (char)s[i]);
+	settle();
+	console_putchar(con, (char)key);
+	settle();
+	printf("{\"e\":\"Flood\",\"s\":[");
+	for (int i = 0; i < n; i++) printf("%s%u", i ? "," : "", s[i]);
+	printf("],\"pending\":%d,\"key\":%d,\"disp\":[%s],\"calls\":[%s],", pending, key, cap[0].d, cap[0].calls);
+	out_json();
+	line_json();
+	printf("}\n");
+}
+static void floods(void)
+{
+	static const char *bursts[] = { "a b\n", "ab x y\nab", "a b\nab c\nabcde", "a b\nab c\nabcd", "a b\nab c\nabcdef", "abcdefghijklmnopqrst\n", "\n\n\n\n\n\n\n\n\n\n\n\n\n\n\n\n" };
+	static const unsigned char n1[] = { 97 }, n2[] = { 97, 98 };
+	for (unsigned b = 0; b < sizeof(bursts) / sizeof(bursts[0]); b++)
+		for (int pending = 0; pending <= 9; pending += (pending < 7 ? 7 : 1)) {
+			reset(); do_reg(n2, 2); do_reg(n1, 1);
+			do_char(10, 1);                                   /* the console has shown its prompt and waits */
+			do_flood((const unsigned char *)bursts[b], (int)strlen(bursts[b]), pending, b & 1 ? 10 : 'z');
+			do_char(10, 1); do_char(97, 1); do_char(10, 1);   /* and it is still alive afterwards */
+		}
+}
 /* an injection that its owner gives up on: the string does not fit the ring, the injecting fibre is killed while it waits
  * for room; what had been injected so far is in the line (reported as an Eval of exactly those characters), the rest never
  * arrives - and the next injection starts from the beginning of ITS string */
@@ -401,6 +433,7 @@ int main(void)
 		else if (drv_is(&c, "RegCase")) regcase(drv_arg(&c, 0));
 		else if (drv_is(&c, "EvalEdge")) evaledge();
 		else if (drv_is(&c, "LongNames")) longnames();
+		else if (drv_is(&c, "Floods")) floods();
 		else if (drv_is(&c, "Twos")) twos(drv_arg(&c, 0), drv_arg(&c, 1));
 		else { fprintf(stderr, "console_drv: unknown command %s\n", c.tok[0]); return 3; }
 	}
